@@ -14,6 +14,8 @@ Abstract value            Python value fed to to_binary (variants)              
   tinyint..bigint,varint  int                                                       int
   counter                 int                                                       int
   timestamp (ms)          A: naive UTC datetime.datetime   B: int milliseconds       datetime.datetime
+  timestamp reading       [wall, aware, off]: datetime(1970,1,1)+timedelta(ms=wall), tzinfo=timezone(timedelta(ms=off))
+                          when aware (both variants)                                naive UTC datetime of the instant
   time (ns)               A: cassandra.util.Time           B: int nanoseconds        cassandra.util.Time
   date (days)             A: datetime.date when it exists, else util.Date  B: util.Date     cassandra.util.Date
   decimal <<scale, u>>    decimal.Decimal((sign, digits, -scale))                   same Decimal (scale preserved)
@@ -181,6 +183,8 @@ def features(t, v, out=None):
         out = set()
     k = t[0]
     if is_scalar(t):
+        if isinstance(v, dict) and v.get("aware"):
+            out.add("aware-timestamp" if v["off"] else "aware-timestamp-utc")
         return out
     if k in ("list", "set"):
         if not v:
@@ -243,6 +247,11 @@ def py_scalar(drv, k, x, variant):
     if k in ("tinyint", "smallint", "int", "bigint", "counter", "varint"):
         return number(x)
     if k == "timestamp":
+        if isinstance(x, dict):                  # a wall-clock reading, naive or with its UTC offset (Codec.tla Readings)
+            dt = EPOCH + datetime.timedelta(milliseconds=x["wall"])
+            if x["aware"]:
+                dt = dt.replace(tzinfo=datetime.timezone(datetime.timedelta(milliseconds=x["off"])))
+            return dt
         return EPOCH + datetime.timedelta(milliseconds=x) if variant == "A" else x
     if k == "time":
         return drv.util.Time(x) if variant == "A" else x
@@ -595,7 +604,7 @@ ALL_SCALARS = {"boolean", "tinyint", "smallint", "int", "bigint", "counter", "ti
                "date", "duration", "ascii", "text", "blob", "uuid", "timeuuid", "inet"}
 INVARIANTS = ["TypeOK", "RoundTrip", "LengthConsistent", "FixedWidths", "NormIdempotent", "VarintMinimal",
               "VintCanonical", "WidthRule", "RaiseJustified"]
-WITNESSES = ["Witness_NullField", "Witness_ShortUdt", "Witness_V2Width", "Witness_Vint5", "Witness_Varint3",
+WITNESSES = ["Witness_NullField", "Witness_ShortUdt", "Witness_AwareOffset", "Witness_V2Width", "Witness_Vint5", "Witness_Varint3",
              "Witness_Raise", "Witness_VarVector", "Witness_LongVecElem"]
 VEC_SCALARS = {"int", "bigint", "timestamp", "boolean", "uuid", "text", "varint", "blob", "decimal", "inet"}
 
@@ -619,8 +628,9 @@ def runs(quick):
     """(label, families) per TLC run"""
     if quick:
         return [("scalars, depth-1 composites, range errors, nesting to depth 3 (small alphabets)",
-                 ["scalar", "list", "set", "map", "tuple", "udt", "vector", "range", "nest2", "nest3"])]
-    return [("scalars (full boundary alphabets), lists, sets, range errors", ["scalar", "list", "set", "range"]),
+                 ["scalar", "list", "set", "map", "tuple", "udt", "vector", "range", "tz", "nest2", "nest3"])]
+    return [("scalars (full boundary alphabets), lists, sets, range errors, timestamps as wall clock + UTC offset",
+             ["scalar", "list", "set", "range", "tz"]),
             ("maps", ["map"]),
             ("tuples, UDTs, vectors", ["tuple", "udt", "vector"]),
             ("nesting depth 2", ["nest2"]),
@@ -652,6 +662,8 @@ def enumerate_cases(ctx, tlc, module="Codec"):
         need = {"ok": "Case", "null": "CellCase", "empty": "CellCase"}
         if "range" in fams:
             need["raise"] = "RangeCase"
+        if "tz" in fams and not any(isinstance(s["val"], dict) for s in states if s["expect"] == "ok"):
+            raise tlc.MachineryError("vacuity: action TzCase never taken in run %s" % label)
         for k, action in need.items():
             if k not in seen:
                 raise tlc.MachineryError("vacuity: action %s never taken in run %s" % (action, label))
@@ -662,7 +674,7 @@ def enumerate_cases(ctx, tlc, module="Codec"):
 def check_witnesses(ctx, tlc):
     """vacuity: TLC must VIOLATE each witness on a small configuration"""
     import os
-    consts = constants(True, ["scalar", "list", "tuple", "udt", "vector", "range"])
+    consts = constants(True, ["scalar", "list", "tuple", "udt", "vector", "range", "tz"])
     consts.update(TopScalars={"varint", "duration"}, ElemScalars={"int"}, FieldScalars={"int", "text"},
                   VecScalars={"text"}, B0=9)
     names = WITNESSES[:3] if ctx.quick else WITNESSES
